@@ -283,7 +283,7 @@ V("desc-benign-count-before", ["C06"], DS, "benign",
 # ---- C07 / C05 / C08 / C02 kernel shape ------------------------------------------------------------------
 DEF = "ffcx/codegeneration/definitions.py"
 ACC = "ffcx/codegeneration/access.py"
-K = ["ACCUMULATE-ONLY", "NO-MUTABLE-STATIC", "ACCESSOR-ONLY", "PREFIX-OFFSETS", "SLOT-RESTRICTION", "MACRO-DOUBLING", "BOUND-SAMESRC", "GEN-INTEGRAL"]
+K = ["ACCUMULATE-ONLY", "NO-MUTABLE-STATIC", "ACCESSOR-ONLY", "PREFIX-OFFSETS", "SLOT-RESTRICTION", "MACRO-DOUBLING", "BOUND-SAMESRC", "GEN-INTEGRAL", "GEN-TABLES"]
 V("ker-assign-on-A", ["C07", "C01"], K, "fire", (IG, "                body.append(L.AssignAdd(A[multi_index], expression))", "                body.append(L.Assign(A[multi_index], expression))"))
 V("ker-expr-assign-on-A", ["C07", "C04"], K, "fire", (EG, "                    quadparts.append(L.AssignAdd(A[multi_index], Brhs))", "                    quadparts.append(L.Assign(A[multi_index], Brhs))"))
 V("ker-table-not-const", ["C07"], K, "fire", (IG, "        return [L.ArrayDecl(table_symbol, values=table, const=True)]", "        return [L.ArrayDecl(table_symbol, values=table)]"))
@@ -324,7 +324,7 @@ V("ker-benign-rename-ic", ["C08", "C02"], K, "benign",
 V("ker-benign-temp-name", ["C07"], K, "benign", (OPT, "                name = f\"temp_{counter}\"", "                name = f\"hoisted_{counter}\""))
 
 # ---- C03 -------------------------------------------------------------------------------------------------
-P = ["PERM-AXIS", "PERM-FLAG-IMPL", "SLOT-RESTRICTION"]
+P = ["PERM-AXIS", "PERM-FLAG-IMPL", "SLOT-RESTRICTION", "GEN-TABLES"]
 V("perm-loops-swapped", ["C03"], P, "fire",
   (ET, "                        for rot in range(3):\n                            for ref in range(2):", "                        for ref in range(2):\n                            for rot in range(3):"))
 V("perm-args-swapped", ["C03"], P, "fire", (ET, "                                        permute_quadrature_quadrilateral(\n                                            quadrature_rule.points, ref, rot\n                                        ),", "                                        permute_quadrature_quadrilateral(\n                                            quadrature_rule.points, rot, ref\n                                        ),"))
@@ -428,7 +428,7 @@ V("pass-fuse-sections-keeps-last-only", ["C17"], PE, "fire", (OPTF, "           
 V("pass-optimize-skips-licm", ["C17"], PE, "benign", (OPTF, "            if L.Annotation.licm in section.annotations:\n                section = licm(section, quadrature_rule)", "            if False:\n                section = licm(section, quadrature_rule)"))
 
 # ---- rules added after the third seeding round --------------------------------------------------------
-TI = ["TABLE-INDEX"]
+TI = ["TABLE-INDEX", "GEN-TABLES"]
 V("tidx-symbols-perm-only-restricted", ["C04", "C03"], TI, "fire",
   (SYM, "        if tabledata.is_permuted:\n            qp = self.quadrature_permutation[0]\n            if restriction == \"-\":", "        if tabledata.is_permuted and restriction is not None:\n            qp = self.quadrature_permutation[0]\n            if restriction == \"-\":"),
   (SYM, "                qp = self.quadrature_permutation[1]\n        else:\n            qp = 0", "                qp = self.quadrature_permutation[1]\n        else:\n            qp = 0\n        qp = qp if tabledata.is_permuted and restriction is not None else 0"))
@@ -480,10 +480,10 @@ V("optgate-tf-name-unscoped", ["C10", "C19"], OG, "fire", (ET, "                
 V("optgate-tf-reuse-by-shape", ["C10"], OG, "fire", (ET, "                    if tensor_factor.values.shape == sub_tbl.shape and np.allclose(\n                        tensor_factor.values, sub_tbl\n                    ):", "                    if tensor_factor.values.shape == sub_tbl.shape:"))
 V("optgate-tf-reuse-equal-tables", ["C10"], OG, "benign", (ET, "                    if tensor_factor.values.shape == sub_tbl.shape and np.allclose(\n                        tensor_factor.values, sub_tbl\n                    ):", "                    if equal_tables(tensor_factor.values, sub_tbl):"))
 
-V("permaxis-benign-local-alias", ["C03", "C08"], ["PERM-AXIS"], "benign",
+V("permaxis-benign-local-alias", ["C03", "C08"], ["PERM-AXIS", "GEN-TABLES"], "benign",
   (ET, "                    if cell_type == \"tetrahedron\":\n                        new_table = []\n                        for rot in range(3):", "                    if cell_type == \"tetrahedron\":\n                        pq = permute_quadrature_triangle\n                        new_table = []\n                        for rot in range(3):"),
   (ET, "                                        permute_quadrature_triangle(\n                                            quadrature_rule.points, ref, rot\n                                        ),", "                                        pq(\n                                            quadrature_rule.points, ref, rot\n                                        ),"))
-V("permaxis-alias-wrong-map", ["C03", "C08"], ["PERM-AXIS"], "fire",
+V("permaxis-alias-wrong-map", ["C03", "C08"], ["PERM-AXIS", "GEN-TABLES"], "fire",
   (ET, "                    if cell_type == \"tetrahedron\":\n                        new_table = []\n                        for rot in range(3):", "                    if cell_type == \"tetrahedron\":\n                        pq = permute_quadrature_quadrilateral\n                        new_table = []\n                        for rot in range(3):"),
   (ET, "                                        permute_quadrature_triangle(\n                                            quadrature_rule.points, ref, rot\n                                        ),", "                                        pq(\n                                            quadrature_rule.points, ref, rot\n                                        ),"))
 
@@ -679,3 +679,17 @@ V("fmt-c-helper-paren-strict", ["C16"], F, "fire", (CF, "class Formatter(Formatt
   (CF, _BIN_OLD, "        lhs = _paren_if(lhs, oper.lhs.precedence >= oper.precedence)\n        rhs = _paren_if(rhs, oper.rhs.precedence > oper.precedence)"))
 V("fmt-c-helper-paren-inverted", ["C16"], F, "fire", (CF, "class Formatter(FormatterInterface):\n    \"\"\"C formatter.\"\"\"\n", _PH.replace("if condition else text", "if not condition else text")),
   (CF, _BIN_OLD, "        lhs = _paren_if(lhs, oper.lhs.precedence >= oper.precedence)\n        rhs = _paren_if(rhs, oper.rhs.precedence >= oper.precedence)"))
+
+# ---- GEN-TABLES --------------------------------------------------------------------------------------
+ETB = "ffcx/ir/elementtables.py"
+GT = ["GEN-TABLES", "PERM-AXIS", "TABLE-INDEX", "MACRO-DOUBLING"]
+V("gt-tet-loops-swapped", ["C03", "C08"], GT, "fire", (ETB, "                        for rot in range(3):\n                            for ref in range(2):", "                        for ref in range(2):\n                            for rot in range(3):"))
+V("gt-tet-two-rotations", ["C03", "C08"], GT, "fire", (ETB, "                        for rot in range(3):\n", "                        for rot in range(2):\n"))
+V("gt-hex-args-swapped", ["C03", "C08"], GT, "fire", (ETB, "                                        permute_quadrature_quadrilateral(\n                                            quadrature_rule.points, ref, rot\n                                        ),", "                                        permute_quadrature_quadrilateral(\n                                            quadrature_rule.points, rot, ref\n                                        ),"))
+V("gt-shift-any-terminal", ["C02", "C08"], GT, "fire", (ETB, "        if mt.restriction == \"-\" and isinstance(mt.terminal, ufl.classes.FormArgument):", "        if mt.restriction == \"-\":"))
+V("gt-shift-plus", ["C02", "C08"], GT, "fire", (ETB, "        if mt.restriction == \"-\" and isinstance(mt.terminal, ufl.classes.FormArgument):", "        if mt.restriction == \"+\" and isinstance(mt.terminal, ufl.classes.FormArgument):"))
+V("gt-reduce-axes-mixed-up", ["C03", "C02", "C08"], GT, "fire", (ETB, "            tbl = tbl[:, :, :1, :]\n", "            tbl = tbl[:, :1, :, :]\n"), (ETB, "            tbl = tbl[:, :1, :, :]\n        is_permuted", "            tbl = tbl[:, :, :1, :]\n        is_permuted"))
+V("gt-perm-axis-always-dropped", ["C03", "C08"], GT, "fire", (ETB, "        if not is_permuted:\n            # Reduce table along num_perms axis\n            tbl = tbl[:1, :, :, :]", "        tbl = tbl[:1, :, :, :]"))
+V("gt-exterior-facets-permuted", ["C03", "C08"], GT, "benign", (ETB, "            integral_type == \"interior_facet\"\n            or integral_type == \"ridge\"", "            integral_type in (\"interior_facet\",)\n            or integral_type == \"ridge\""))
+V("gt-offset-without-component", ["C02", "C08"], GT, "fire", (ETB, "        offset = cell_offset + t[\"offset\"]", "        offset = cell_offset"))
+V("gt-refactor-stack-helper", ["C03", "C08"], GT, "benign", (ETB, "                    t = new_table[0]\n                    t[\"array\"] = np.vstack([td[\"array\"] for td in new_table])\n                elif tdim == 3:", "                    t = dict(new_table[0])\n                    stacked = np.vstack([td[\"array\"] for td in new_table])\n                    t[\"array\"] = stacked\n                elif tdim == 3:"))
